@@ -21,15 +21,18 @@ func readDiagnostic(ctx context.Context, f io.Reader, ch chan<- *birch.Document)
 	for {
 		doc, err := readBufBSON(buf)
 		if err != nil {
+			vpoint("rd.readend")
 			if err == io.EOF {
 				err = nil
 			}
 			return err
 		}
+		vpoint("rd.send")
 		select {
 		case ch <- doc:
 			continue
 		case <-ctx.Done():
+			vpoint("rd.cancelled")
 			return nil
 		}
 	}
@@ -39,6 +42,7 @@ func readChunks(ctx context.Context, ch <-chan *birch.Document, o chan<- *Chunk)
 	var metadata *birch.Document
 
 	for doc := range ch {
+		vpoint("rc.recv")
 		// the FTDC streams typically have onetime-per-file
 		// metadata that includes information that doesn't
 		// change (like process parameters, and machine
@@ -138,6 +142,7 @@ func readChunks(ctx context.Context, ch <-chan *birch.Document, o chan<- *Chunk)
 			}
 			metrics[i].Values = undelta(v.startingValue, metrics[i].Values)
 		}
+		vpoint("rc.send")
 		select {
 		case o <- &Chunk{
 			Metrics:   metrics,
@@ -147,6 +152,7 @@ func readChunks(ctx context.Context, ch <-chan *birch.Document, o chan<- *Chunk)
 			reference: refDoc,
 		}:
 		case <-ctx.Done():
+			vpoint("rc.cancelled")
 			return nil
 		}
 	}
